@@ -71,7 +71,7 @@ pub fn new_ctor(name: &str, arity: usize) -> Ctor {
 }
 
 pub fn new_trait(name: &str, extra: usize, kind: TraitKind) -> TraitDef {
-    TraitDef { name: name.into(), extra, kind, supers: vec![], lang: None, upstream: false, marker: false, non_enumerable: false, assocs: vec![] }
+    TraitDef { name: name.into(), extra, kind, supers: vec![], lang: None, upstream: false, marker: false, non_enumerable: false, assocs: vec![], assoc_wcs: vec![] }
 }
 
 pub fn gen_ctors(t: &mut Tape, cfg: &GenCfg) -> Program {
@@ -424,6 +424,13 @@ pub fn shrink_program(p: &Program) -> Vec<Program> {
             out.push(q);
         }
     }
+    for i in 0..p.traits.len() {
+        for w in 0..p.traits[i].assoc_wcs.len() {
+            let mut q = p.clone();
+            q.traits[i].assoc_wcs.remove(w);
+            out.push(q);
+        }
+    }
     for i in 0..p.ctors.len() {
         for v in 0..p.ctors[i].variants.len() {
             for f in 0..p.ctors[i].variants[v].len() {
@@ -440,7 +447,7 @@ pub fn shrink_program(p: &Program) -> Vec<Program> {
     }
     // drop unused trailing traits / ctors
     if let Some(last) = p.traits.len().checked_sub(1) {
-        let used = p.impls.iter().any(|im| im.head.tr == last || im.wcs.iter().any(|w| w.tr == last)) || p.traits.iter().any(|t| t.supers.iter().any(|s| s.tr == last));
+        let used = p.impls.iter().any(|im| im.head.tr == last || im.wcs.iter().any(|w| w.tr == last)) || p.traits.iter().any(|t| t.supers.iter().any(|s| s.tr == last) || t.assoc_wcs.iter().any(|w| w.1 == last) || t.assocs.iter().any(|a| a.1.contains(&last)));
         if !used && p.traits.len() > 1 {
             let mut q = p.clone();
             q.traits.pop();
